@@ -730,13 +730,13 @@ Definition migrate (m : nat) (v : pv) : pv :=
   end.
 
 (* ---------------------------------------------------------------------------------------------
-   the public protobuf decode paths of a signal, and which of them run otlp.MigrateX afterwards
-   (as the code stands: plog/pb.go ProtoUnmarshaler.UnmarshalLogs does not, although the comment on
-   MigrateLogs says every unmarshaler MUST; plogotlp.ExportRequest.UnmarshalProto does; the JSON
-   paths — Json.of_json — do).  Same for metrics, traces and profiles. *)
+   the public protobuf decode paths of a signal.  Every one of them runs otlp.MigrateX after the
+   generated Unmarshal (plog/pb.go ProtoUnmarshaler.UnmarshalLogs, plogotlp.ExportRequest.UnmarshalProto;
+   same for metrics, traces, profiles; the JSON paths — Json.of_json — as well); the generated
+   Unmarshal itself (`decode`) does not. *)
 Inductive pubpath := PProtoUnmarshaler | PExportRequestProto.
 Definition path_migrates (p : pubpath) : bool :=
-  match p with PProtoUnmarshaler => false | PExportRequestProto => true end.
+  match p with PProtoUnmarshaler => true | PExportRequestProto => true end.
 Definition decode_path (p : pubpath) (m : nat) (b : bytes) : option pv :=
   if path_migrates p then option_map (migrate m) (decode m b) else decode m b.
 
